@@ -1616,7 +1616,7 @@ class TOTP:
         # default json format is just serialization of constructor kwds.
         # XXX: just pass all this through to _from_json / constructor?
         # go ahead and mark as changed (needs re-saving) if the version is too old
-        assert cls._check_otp_type(type)
+        cls._check_otp_type(type)
         ver = kwds.pop("v", None)
         if (
             not isinstance(ver, int)
